@@ -1,0 +1,26 @@
+//go:build verif
+
+// ASSUMED contracts for package jobs needed by C15 (event transitions). Comment-only file, read by /verif/govc.
+// The job store is a node-local database (its own SessionedStorage, not the chain State): nothing that is under
+// contract (tracker stores, balances, chain State) is touched by it. Assumed, bodies not verified (mutex, sessions).
+
+package jobs
+
+//@ assume func (*JobStore).SaveJob
+//@   modifies nothing
+//@ assume func (*JobStore).GetJob
+//@   modifies nothing
+//@ assume func (*JobStore).DeleteJob
+//@   modifies nothing
+//@ assume func (*JobStore).JobExists
+//@   modifies nothing
+
+//@ interface Job
+//@   method IsDone
+//@     modifies nothing
+//@   method IsFailed
+//@     modifies nothing
+//@   method GetType
+//@     modifies nothing
+//@   method GetJobID
+//@     modifies nothing
